@@ -71,6 +71,22 @@ CHECKS = {
         "Reference transcribed from PS3.8 / PS3.7 D.3.3.4 and the documented role table; role proposals restricted to what the wire can carry (booleans).",
         "3/C10",
     ),
+    "C15": (
+        "exploration",
+        "enum",
+        "bounded-exhaustive enumeration of maximum lengths x command-set lengths x every data-set length x backing through the real encode_msg, and of every grouping of the fragments through the real decode_msg",
+        "Every data-set length from 0 to three fragments plus one for each small maximum length (7..64), boundary lengths around k*(max-6) and k*max for the large maxima, in-memory and file-backed, is fragmented by the real encode_msg; PDV-list and PDU lengths, ordering and last-fragment flags are checked against PS3.8 Annex E and every grouping of the fragments into P-DATA primitives (all 2^(n-1) when n <= 7) is reassembled by the real decode_msg and compared byte for byte.",
+        "Only lengths vary (fixed non-periodic content); large maxima are covered at boundary lengths only.",
+        "3/C15",
+    ),
+    "C17": (
+        "exploration",
+        "enum",
+        "bounded-exhaustive enumeration of parameter subsets and boundary values for all 23 DIMSE message types through the real primitive/message/encode/decode round trip",
+        "For each message type every subset of the parameters PS3.7 gives it, every boundary value one at a time (pairs in the thorough tier), message IDs {0,1,65535} and data set absent/present are converted primitive -> message -> P-DATA -> message -> primitive with the real code; type, direction, every parameter incl. multi-valued attribute lists and the data-set bytes must survive, CommandField must equal the PS3.7 value and CommandGroupLength the length of the remaining command set.",
+        "Message/parameter table transcribed from PS3.7 (vk/ref/cmd.py).",
+        "3/C17",
+    ),
     "C26": (
         "model_checking",
         "sim",
